@@ -11,8 +11,8 @@ import sys
 
 scratch, pid, n = sys.argv[1], sys.argv[2], sys.argv[3]
 extra = sys.argv[4:]
-src = f'/tmp/seedout/{pid}'
-name = f'{pid}-{n}'
+src = os.environ.get('SEED_SRC', '/tmp/seedout') + f'/{pid}'
+name = f"{pid}-{int(n) + int(os.environ.get('SEED_OFFSET', '0'))}"
 out = f'/verif/seeded/{name}'
 TESTS = ('/venv/bin/python -m pytest -q -p no:cacheprovider tests/config_test.py '
          'tests/config_parser_test.py tests/selector_map_test.py tests/resource_reader_test.py')
@@ -24,7 +24,8 @@ def sh(cmd, cwd=None, env=None, timeout=1800):
   return p.returncode, (p.stdout + p.stderr)
 
 
-meta = {'id': name, 'property': pid, 'source': 'independent sub-agent given only the property text'}
+meta = {'id': name, 'property': pid, 'source': 'independent sub-agent given only the property text',
+        'round': 2 if os.environ.get('SEED_OFFSET') else 1}
 if name in ('C07-2', 'C05-2'):
   meta['ported'] = 'the original patch conflicted with a later fix: commit; re-applied by hand to the current tree, same change'
 patch = f'{src}/patch{n}.diff'
